@@ -133,6 +133,98 @@ def validate(c, traces, meta, nontrivial):
     c.sample({'direction': 'C2S', 'tps': meta[0]['tps'], 'plan': meta[0]['plan'], 'trace_head': traces[0][:8]})
 
 
+RACE_HOST = '''import sys
+
+H = None
+
+
+def work(n):
+    H.trace_call(sys._getframe(), 'call', None)
+    a = n
+    H.trace_call(sys._getframe(), 'line', None)  # TP:stable
+    b = a + 1
+    H.trace_call(sys._getframe(), 'line', None)  # TP:stable2
+    H.trace_call(sys._getframe(), 'return', b)
+    return b
+'''
+
+
+def reconfig_race_leg(c, wd, max_preemptions, max_runs):
+    """A configuration update (Dispatch!Reconfigure) lands while another thread is in the middle of an event: a
+    tracepoint that is in the old AND in the new configuration acts on every hit of its line, whatever the interleaving
+    (line-level schedules inside trigger_handler.py)."""
+    import sys
+    from .. import rig as R
+    from .. import sched as S
+    mod, path, marks = R.write_host(wd, RACE_HOST)
+    base = path.rsplit('/', 1)[-1]
+    inf = {'fire_count': '-1', 'fire_period': '0', 'snapshot': 'no_collect'}
+
+    def tp(i, line):
+        return dict(id='s%d' % i, path=base, line=marks[line], args=dict(inf, log_msg='hit %d' % i))
+
+    def make_run():
+        plugin = R.role_plugin('lg', {'log'})
+        rg = R.Rig(plugins=[plugin])
+        from deep.grpc import convert_response
+        from deepproto.proto.tracepoint.v1.tracepoint_pb2 import TracePointConfig
+
+        def triggers(tps):
+            return convert_response([TracePointConfig(ID=t['id'], path=t['path'], line_number=t['line'], args=t['args'])
+                                     for t in tps])
+        rg.handler.new_config(triggers([tp(1, 'stable'), tp(2, 'stable2')]))
+        mod.H = rg.handler
+        sch = S.Scheduler(line_files=('deep/processor/trigger_handler.py',))
+        results = {}
+        newer = [triggers([tp(1, 'stable'), tp(2, 'stable2'), tp(3, 'stable')]), triggers([tp(2, 'stable2'), tp(1, 'stable')])]
+
+        def host():
+            results['host'] = [mod.work(1), mod.work(2)]
+
+        def updater():
+            for cfg in newer:
+                rg.handler.new_config(cfg)
+        sch.spawn('U', updater)     # (first: the default schedule runs it to the end, one forced switch parks it anywhere)
+        sch.spawn('H', host)
+
+        def finish(sched, schedule):
+            logs = [c_[1] for c_ in plugin.calls if c_[0] == 'log']
+            problems = []
+            if results.get('host') != [2, 3]:
+                problems.append('host results %r' % (results.get('host'),))
+            for i in (1, 2):
+                n = sum(1 for m_ in logs if m_ == '[deep] hit %d' % i)
+                if n != 2:
+                    problems.append('tracepoint s%d (in every configuration) acted %d times on 2 hits of its line' % (i, n))
+            if rg.escaped:
+                problems.append('handler raised %r' % (rg.escaped,))
+            rg.close()
+            return problems
+        return sch, finish
+    n = 0
+    for schedule, problems in S.explore(make_run, max_preemptions=max_preemptions, max_runs=max_runs):
+        n += 1
+        c.traces_validated += 1
+        c.note_case(key=('reconfig-race', str(schedule)), nontrivial=True)
+        if problems:
+            p_ = c.save_replay({'direction': 'C2S', 'kind': 'reconfig-race', 'schedule': _compress(schedule),
+                                'problems': problems})
+            c.violation('configuration update racing with an event, schedule %s: %s' % (_compress(schedule), problems[:2]), p_)
+            break
+    sys.modules.pop(mod.__name__, None)
+    c.extra['reconfig_race_schedules'] = n
+
+
+def _compress(schedule):
+    out = []
+    for s_ in schedule:
+        if out and out[-1][0] == s_:
+            out[-1][1] += 1
+        else:
+            out.append([s_, 1])
+    return out
+
+
 def run(c):
     quick = c.tier == 'quick'
     rng = random.Random(c.seed)
@@ -157,6 +249,7 @@ def run(c):
                  ([dict(id=1, kind='method', file='a', name='f', line=0, span='none')],
                   [[('a.kf', [])], [('a.f', [])], [('a.kf', [])], [('a.f', [])]])]
     traces, meta = run_scenarios(c, rng, wd, 60 if quick else 1500, 0.2, 'placement', 'p', curated=same_name)
+    reconfig_race_leg(c, wd, 2, 60 if quick else 3000)
     validate(c, traces, meta, lambda m: m['firings'] >= 3)
     c.extra['events_judged'] = sum(m['events'] for m in meta)
     c.extra['firings'] = sum(m['firings'] for m in meta)
